@@ -50,7 +50,8 @@ A0 = "def first_total(items):\n" + DUP + "\n\ndef check_a(kind):\n    if kind no
 A1 = "def first_total(items):\n    return sum(items)\n"
 B0 = "def second_total(items):\n" + DUP
 C0 = "def timeout():\n    print('x')\n    return 3600\n"
-C1 = "def timeout():\n    return None\n"
+# the edit of c.py adds a file-level suppression to otherwise unchanged code (a.py's edit changes code)
+C1 = "# thailint: ignore-file\n" + C0
 D0 = "def check_d(kind):\n    if kind not in (\"alpha\", \"beta\", \"gamma\"):\n        raise ValueError(kind)\n"
 CFG = {"dry": {"enabled": True, "min_duplicate_lines": 4}}
 EVENTS = ["lint_dir", "lint_sub", "lint_a", "lint_b", "lint_c", "edit_a", "edit_c", "toggle_b", "toggle_e"]
@@ -161,7 +162,11 @@ def _many_sites_project():
             body += block
         body += f"    if level == \"{modes[i % 3]}\" or level == \"{modes[(i + 1) % 3]}\":\n        return {i}\n    return job\n"
         files[f"site{i}.py"] = body
-    files[".thailint.yaml"] = yaml_dump({"dry": {"enabled": True, "min_duplicate_lines": 4, "detect_duplicate_constants": True}})
+    # one block shared by a .js and a .ts file, with different per-language occurrence thresholds
+    shared = "  const alpha = fetchAlpha(job);\n  const beta = alpha.transform(job);\n  const gamma = combine(alpha, beta);\n  const delta = publish(gamma, job);\n  return finish(delta);\n"
+    files["alpha.js"] = "function runAlpha(job) {\n" + shared + "}\n"
+    files["beta.ts"] = "export function runBeta(job: Job) {\n" + shared + "}\n"
+    files[".thailint.yaml"] = yaml_dump({"dry": {"enabled": True, "min_duplicate_lines": 4, "detect_duplicate_constants": True, "javascript": {"min_occurrences": 2}, "typescript": {"min_occurrences": 3}}})
     return files
 
 
@@ -351,9 +356,9 @@ def run_item(item) -> Acc:
 
         files = _many_sites_project()
         root = project(files)
-        names = [f"site{i}.py" for i in range(7)]
-        orders = [names[i:] + names[:i] for i in range(7)] + [list(reversed(names))]
-        orders += [names[:i] + [names[i + 1], names[i]] + names[i + 2 :] for i in range(6)]
+        names = [f"site{i}.py" for i in range(7)] + ["alpha.js", "beta.ts"]
+        orders = [names[i:] + names[:i] for i in range(len(names))] + [list(reversed(names))]
+        orders += [names[:i] + [names[i + 1], names[i]] + names[i + 2 :] for i in range(len(names) - 1)]
 
         def lib(order):
             env.reset_caches()
